@@ -14,3 +14,12 @@ package posix
 //@   at-return {C13} [content-length-is-section] when err == nil :: ensures *ret0.ContentLength == length
 //@   at-return {C13} [content-range-iff-valid] when err == nil :: ensures (*ret0.ContentRange != "") <==> isValid
 //@   at-return {C13} [whole-file-only-for-whole-object] when err == nil && typeIs(ret0.Body, *os.File) :: ensures startOffset == 0 && length == objSize
+
+// ---- C10: retention overwrite rules ---------------------------------------------------
+// The retention attribute of an object version is (re)written only when none exists yet, or the
+// existing one is not COMPLIANCE and, if GOVERNANCE, the caller's bypass was granted. (The gateway
+// does not implement extending a COMPLIANCE retention; a change that does needs a clause relating the
+// new document to the old one.)
+//@ func (*Posix) PutObjectRetention
+//@   at-call meta.MetadataStorer.StoreAttribute {C10} [retention-overwrite-rules] when $3 == objectRetentionKey :: \
+//@        requires errors.Is(err, meta.ErrNoSuchKey) || (lockCfg.Mode != types.ObjectLockRetentionModeCompliance && (lockCfg.Mode == types.ObjectLockRetentionModeGovernance ==> bypass))
